@@ -274,10 +274,44 @@ def udf_link_count(ctx):
                 if UFE not in xt:
                     continue
                 n += 1
-                ok = any(norm(i.recv) == norm(r) for i in incs)
-                obs.append(Ob('SA-PAIR.udf_link_count', '%s|%s' % (fi.qual, norm(w.stmt)[:70]), ok, ctx.loc(fi, w.node),
-                              '' if ok else '%s links a UDF file entry to inode %s without counting it in num_udf: the add/remove '
-                              'deltas for the file-entry sector are then off by one (after reopen)' % (fi.qual, norm(r))))
+                from .. import expand as _ex
+                same = [i for i in incs if norm(i.recv) == norm(r)]
+                params = set(p.lstrip('*') for p in fi.params)
+
+                def facts(st):
+                    out = set()
+                    for test, pol, at in _ex.conditions(ctx, fi, st, True):
+                        for t, p in _ex.conjuncts(test, pol):
+                            out.add((norm(t), p, id(t)))
+                    return out
+
+                def harmless(t):
+                    # None tests / isinstance / tests over parameters only: namespace dispatch, not a per-link filter
+                    if isinstance(t, ast.Compare) and len(t.ops) == 1 and isinstance(t.ops[0], (ast.Is, ast.IsNot)):
+                        return True
+                    if isinstance(t, ast.Call) and norm(t.func) == 'isinstance':
+                        return True
+                    return all(not isinstance(x, ast.Name) or x.id in params or x.id == 'self' for x in ast.walk(t))
+                ok = False
+                extra_txt = ''
+                fa = set((a, b) for a, b, c in facts(w.stmt))
+                for i in same:
+                    extra = []
+                    for test, pol, at in _ex.conditions(ctx, fi, i.stmt, True):
+                        for t, p in _ex.conjuncts(test, pol):
+                            if (norm(t), p) not in fa and not harmless(t):
+                                extra.append(('' if p else 'not ') + norm(t))
+                    if not extra:
+                        ok = True
+                    else:
+                        extra_txt = ' and '.join(extra)
+                why = ''
+                if not ok:
+                    why = ('%s links a UDF file entry to inode %s without counting it in num_udf' % (fi.qual, norm(r))) if not same else \
+                        ('%s counts the link in num_udf only when `%s`, a condition the link itself does not depend on: one count per name is what '
+                         '_rm_udf_link takes back' % (fi.qual, extra_txt))
+                    why += ': the add/remove deltas for the file-entry sector are then off (after reopen a sector still in use is given back, or one is leaked)'
+                obs.append(Ob('SA-PAIR.udf_link_count', '%s|%s' % (fi.qual, norm(w.stmt)[:70]), ok, ctx.loc(fi, w.node), why))
             elif _is_del_write(w):
                 # removal in a function whose record type is a UDF file entry
                 rt = type_classes(ctx.t.expr_type(w.recv.value if isinstance(w.recv, ast.Attribute) else w.recv, fi))
